@@ -20,8 +20,9 @@ def main():
     try:
         out['is_cached'] = [lab.is_cached(t) for t in tasks]
         res = lab.run_tasks(requested, disable_progress=True, disable_top=True)
-        out['values'] = {t.name: v for t, v in res.items()}
-        out['meta'] = {t.name: t.result_meta for t in requested}
+        idx = {id(t): i for i, t in enumerate(tasks)}
+        out['values'] = {idx[id(t)]: v for t, v in res.items()}
+        out['meta'] = {idx[id(t)]: t.result_meta for t in requested}
         out['keys'] = [t.cache_key for t in tasks]
     except BaseException as ex:
         out['error'] = f'{type(ex).__name__}: {ex}'
